@@ -44,6 +44,8 @@ structure Machine where
   hooksRunning : Bool := false
   sys : SysState := {}
   symbols : List (Nat × String) := []
+  /-- event log written by scripted hooks (verification only; no counterpart in the emulator) -/
+  log : List String := []
 deriving Repr, Inhabited
 
 namespace Machine
